@@ -923,6 +923,10 @@ fn exec_op(
             jh.join().unwrap();
             Res::U
         }
+        K::Mark => {
+            note(40, loom::verif::path_pos() as u64, 0);
+            Res::U
+        }
         K::Yield => {
             loom::thread::yield_now();
             Res::U
